@@ -7,8 +7,9 @@ from . import registry
 
 LEVEL_TEXT = {
  "C01": "Bounded symbolic execution (rs2smt + z3) of the real SnapshotWriter / SnapshotReader / message code over a modelled file and protobuf primitive layer, including a file left by an interrupted build; counterexamples replayed on real files. Narrow: the snapshot file format only, not the restart orchestration.",
- "C02": "Bounded model checking (Kani/CBMC) of the log file's index arithmetic at full integer width (index rewind, index-area parsing, scan start): the code that decides which entries a reopened log exposes. The chunk-boundary end-of-log logic is decided under C20.",
- "C03": "Bounded model checking (Kani/CBMC) of the truncation arithmetic (which index entries are popped and how far the index cursor is rewound) for every cut point and every index-entry width.",
+ "C02": "Bounded model checking (Kani/CBMC) of the log file's index arithmetic at full integer width (index rewind, index-area parsing, scan start) plus bounded symbolic execution (rs2smt + z3) of the real LogInnerManager over a modelled file layer: appends, a refused wrong-index append, reopen. The chunk-boundary end-of-log logic is decided under C20.",
+ "C03": "Bounded model checking (Kani/CBMC) of the truncation arithmetic for every cut point and index-entry width, plus bounded symbolic execution (rs2smt + z3) of the real LogInnerManager: appends, delete-from every k (on and across index entries), re-appends of any length, optional reopen.",
+ "C04": "Bounded symbolic execution (rs2smt + z3) of the real log-file code with a symbolic crash point over the journal of its file mutations (also inside an operation): the log reopens and shows the state of the last acknowledged operation or of the one in flight. Narrow: one log file; cross-file orders between actors are outside.",
  "C05": "Bounded symbolic execution (rs2smt + z3) of the real index-file code (init, write_index, write_last_applied_log, message code, FileMessageReader) over a modelled file layer: save hard state then restart, symbolic 64-bit values; plus Kani for the id codec at all u64; counterexamples replayed on real files.",
  "C07": "Translation validation of three programs (leader apply, follower batch, start-up replay): each request variant is symbolically evaluated through the three real function bodies and the emitted (actor, message) terms are compared by z3; plus the last-applied bookkeeping of the batch path vs the single path.",
  "C09": "Bounded symbolic execution of the real config-store source (set_config, del_config, GET, index, history) over every history of 3-4 operations with arbitrary string contents, decided by z3.",
